@@ -337,6 +337,7 @@ func (s *pState) manualRefreshListener(done chan struct{}) {
 func (s *pState) render(cw *cwriter.Writer) (err error) {
 	iter, iterPop := make(chan *Bar), make(chan *Bar)
 	s.hm.sync(s.iterDrop)
+	verifYield("render.synced")
 	s.hm.iter(s.iterDrop, iter, iterPop)
 
 	var width, height int
